@@ -5,6 +5,7 @@ import numpy as np
 
 SOURCE_TYPES = ['close', 'high', 'low', 'open', 'volume', 'hl2', 'hlc3', 'ohlc4']
 T0 = 1_600_000_000_000 - (1_600_000_000_000 % 86_400_000)
+MATYPES = [0, 0, 1, 2, 3, 4, 5, 6, 9, 10, 12, 23, 25, 26]
 
 
 def discover():
@@ -45,6 +46,8 @@ def make_candles(kind, n, seed, scale=100.0, t0=T0):
         steps = np.zeros(n)
     elif kind == 'monotone':
         steps = np.full(n, 0.003)
+    elif kind in ('lattice', 'leading-zero-volume'):
+        steps = rng.normal(0, 0.008, n)
     else:
         raise ValueError(kind)
     close = scale * np.exp(np.cumsum(steps))
@@ -58,6 +61,21 @@ def make_candles(kind, n, seed, scale=100.0, t0=T0):
     vol = np.abs(rng.normal(1000, 300, n)) + 1
     if kind == 'flatish':
         vol = np.where(steps == 0, 0.0, vol)
+    if kind == 'lattice':
+        # prices on a coarse grid: ties between highs/lows, symmetric outside bars, equal extremes are frequent
+        g = scale * 0.0025
+        q = lambda a: np.round(a / g) * g
+        open_, close = q(open_), q(close)
+        high = np.maximum(q(high), np.maximum(open_, close))
+        low = np.maximum(np.minimum(q(low), np.minimum(open_, close)), g)
+        vol = np.round(vol / 100) * 100 + 100
+    if kind == 'leading-zero-volume':
+        # an imported series that starts with gap-filled (flat, zero-volume) candles
+        k = int(rng.integers(5, max(6, n // 2)))
+        open_[:k] = close[:k] = high[:k] = low[:k] = open_[0]
+        open_[k] = open_[0]
+        high[k], low[k] = max(high[k], open_[k]), min(low[k], open_[k])
+        vol[:k] = 0.0
     ts = t0 + np.arange(n) * 60_000.0
     return np.column_stack([ts, open_, close, high, low, vol]).astype(float)
 
@@ -97,6 +115,8 @@ def perturb_kwargs(sig, draw_int, draw_choice):
             kw[k] = draw_choice(SOURCE_TYPES)
         elif isinstance(d, bool):
             continue
+        elif k.endswith('matype') and isinstance(d, int):
+            kw[k] = draw_choice(MATYPES)
         elif isinstance(d, int) and ('period' in k or 'length' in k or k in ('k', 'd', 'lookback', 'order', 'window')) and d >= 2:
             kw[k] = draw_int(2, 60)
     return kw
